@@ -507,6 +507,33 @@ void swap(SwapD&, SwapC&) noexcept;
 struct SwapE { };
 struct SwapF { };
 void swap(SwapE&, SwapF&) noexcept; // one order only: not swappable_with
+// copy / move constructors that exist for some value categories of the source only (added after seeded breakage
+// c15_copy_constructible_const_rvalue_clause: copy_constructible lost its constructible_from<T, const T> clause; only a
+// class with a DELETED const-rvalue constructor next to working const-lvalue and rvalue ones tells the difference)
+struct ConstRvalueDeleted {
+    ConstRvalueDeleted();
+    ConstRvalueDeleted(ConstRvalueDeleted const&);
+    ConstRvalueDeleted(ConstRvalueDeleted&&);
+    ConstRvalueDeleted(ConstRvalueDeleted const&&) = delete;
+    ConstRvalueDeleted& operator=(ConstRvalueDeleted const&);
+    friend bool operator==(ConstRvalueDeleted const&, ConstRvalueDeleted const&);
+};
+struct NonConstLvalueDeleted {
+    NonConstLvalueDeleted();
+    NonConstLvalueDeleted(NonConstLvalueDeleted const&);
+    NonConstLvalueDeleted(NonConstLvalueDeleted&) = delete;
+    NonConstLvalueDeleted(NonConstLvalueDeleted&&);
+    NonConstLvalueDeleted& operator=(NonConstLvalueDeleted const&);
+    friend bool operator==(NonConstLvalueDeleted const&, NonConstLvalueDeleted const&);
+};
+struct ConstRvalueAssignDeleted {
+    ConstRvalueAssignDeleted();
+    ConstRvalueAssignDeleted(ConstRvalueAssignDeleted const&);
+    ConstRvalueAssignDeleted& operator=(ConstRvalueAssignDeleted const&);
+    ConstRvalueAssignDeleted& operator=(ConstRvalueAssignDeleted&&);
+    ConstRvalueAssignDeleted& operator=(ConstRvalueAssignDeleted const&&) = delete;
+    friend bool operator==(ConstRvalueAssignDeleted const&, ConstRvalueAssignDeleted const&);
+};
 struct ThrowingAdlSwap {
     friend void swap(ThrowingAdlSwap&, ThrowingAdlSwap&) noexcept(false);
 };
